@@ -18,7 +18,7 @@ from .interp import (Ctx, Frame, PyRaise, _Return, _Break, _Continue, PathEnd, I
 from .modules import Repo, node_hash
 from .values import (S, VOpt, VQty, VTime, VDelta, VEnum, SEnum, VRec, VRef, HObj, HList, HDict,
                      HSet, SymSeq, SymSet, SymMap, FuncRef, ClassRef, ModRef, ExtRef,
-                     BoundBuiltin, Opaque, Unsupported, fresh_name, reset_fresh, GhostSeq, KeySetVal, HKeySet, HOptDict, HSymList)
+                     BoundBuiltin, Opaque, Unsupported, fresh_name, reset_fresh, GhostSeq, KeySetVal, HKeySet, HOptDict, HSymList, HSymSet)
 
 
 class FunctionReport:
@@ -109,6 +109,10 @@ class Engine:
         return any(b.split(".")[-1] == last for b in ci.bases)
 
     def enum_members(self, qual):
+        if qual.startswith("ext:"):
+            if qual not in specmod.EXT_ENUMS:
+                raise Unsupported(f"external enum {qual}: members not declared")
+            return specmod.EXT_ENUMS[qual]
         ci = self.class_info(qual)
         if ci is None:
             raise Unsupported(f"enum {qual} not found")
@@ -201,8 +205,16 @@ class Engine:
         raise Unsupported("with statement")
 
     def now(self, it):
-        it.ctx.trusted.add("model:datetime.now() returns an arbitrary instant")
-        return VTime(S(z3.Int(fresh_name("now")), "int"))
+        """datetime.now(): successive calls return non-decreasing instants now_0, now_1, ... (ghosts)."""
+        ctx = it.ctx
+        ctx.trusted.add("model:datetime.now() returns arbitrary non-decreasing instants (ghosts now_0, now_1, ..)")
+        k = sum(1 for g in ctx.ghost if g.startswith("now_"))
+        z = z3.Int(f"now_{k}")
+        if k > 0:
+            ctx.assume(zof(ctx.ghost[f"now_{k - 1}"].us, "int") <= z)
+        v = VTime(S(z, "int"))
+        ctx.ghost[f"now_{k}"] = v
+        return v
 
     def len_model(self, it, x):
         return NotImplemented
@@ -215,6 +227,7 @@ class Engine:
             src = it.eval(g.node.generators[0].iter, g.fr)
         except Unsupported:
             return False
+        src = it.as_symbolic_iterable(src)
         g.cached_iter = src
         return isinstance(src, (SymSeq, SymSet, SymMap))
 
@@ -292,6 +305,11 @@ class Engine:
                     ctx.assume(n <= zof(ml, "int"))
                 return ctx.alloc(HSymList(sq, ml))
             return sq
+        if k == "extobj":
+            fields = {f: self.make_sym(ctx, sh, f"{name}.{f}") for f, sh in shape.fields.items()}
+            fields["calls"] = ctx.alloc(HList([]))
+            fields["__returns__"] = shape.returns
+            return ctx.alloc(HObj("ext:" + shape.cls, fields))
         if k == "keyset":
             from . import keysets
             ks = keysets.make_keyset(self, ctx, shape, name)
@@ -328,6 +346,8 @@ class Engine:
             ks = self.key_sort(shape.elem)
             st = SymSet(z3.Array(name, ks, z3.BoolSort()), shape.elem)
             st.pyshape = shape
+            if not shape.frozen:
+                return ctx.alloc(HSymSet(st))
             return st
         if k == "map":
             ks = self.key_sort(shape.key)
@@ -502,6 +522,8 @@ class Engine:
         if isinstance(v, VRef):
             heap = ctx.old[1] if ctx.old is not None else ctx.heap
             h = heap.get(v.addr) or ctx.heap[v.addr]
+            if isinstance(h, HSymSet):
+                return self.val_json(ctx, None, h.val, model)
             if isinstance(h, HSymList):
                 j = self.val_json(ctx, None, h.seq, model)
                 if h.maxlen is not None:
@@ -533,6 +555,22 @@ class Engine:
             n = max(0, min(n, 12))
             return {"list": [self.val_json(ctx, None, v.get(z3.IntVal(i)), model) for i in range(n)],
                     "len": self.zval(model, v.length).as_long()}
+        if isinstance(v, SymSet):
+            cands = set(range(-4, 12))
+            for _, (sh, iv) in ctx.input_syms.items():
+                if isinstance(iv, S) and iv.kind == "int":
+                    try:
+                        cands.add(self.zval(model, iv.z).as_long())
+                    except Exception:  # pylint: disable=broad-except
+                        pass
+            for dcl in model.decls():
+                try:
+                    val = model[dcl]
+                    if z3.is_int_value(val):
+                        cands.add(val.as_long())
+                except Exception:  # pylint: disable=broad-except
+                    pass
+            return {"set": sorted(kk for kk in cands if z3.is_true(self.zval(model, z3.Select(v.member, z3.IntVal(kk)))))}
         if isinstance(v, frozenset):
             return {"frozenset": sorted(v)}
         if isinstance(v, Opaque):
@@ -717,6 +755,13 @@ class Engine:
             g = self.eval_clause(it, expr, sfr)
             ctx.check(f"{self.current.target.split(':')[-1]}::call[{short}].requires.{nm}", g, kind="precondition")
             ctx.assume(zbool(g) if not isinstance(g, bool) else g)
+        # instants the callee asks the clock for (its clauses call them now_0, now_1, ..)
+        import re as _re
+        used_nows = set()
+        for txt in list(c.ensures.values()) + [v for v in c.raises.values() if isinstance(v, str)]:
+            used_nows |= {int(m) for m in _re.findall(r"\bnow_(\d+)\b", txt)}
+        for j in range(max(used_nows) + 1 if used_nows else 0):
+            sfr.locals[f"now_{j}"] = self.now(it)
         # exceptional outcomes allowed by the callee's contract
         for exc, cond in c.raises.items():
             g = self.eval_clause(it, cond, sfr) if isinstance(cond, str) else cond
@@ -796,20 +841,40 @@ class Engine:
         return v
 
     def havoc_path(self, it, sfr, path, c):
-        """`self.field` or `param.field`: replace by a fresh value of the declared shape."""
+        """`param`, `param.field` or `param.field.field..`: replace by a fresh value of the declared shape."""
         ctx = it.ctx
-        objn, attr = path.split(".", 1)
-        ref = sfr.locals[objn]
-        shape = None
-        oshape = c.self_shape if objn == "self" else c.shapes.get(objn)
-        if oshape is not None:
-            shape = oshape.fields.get(attr)
-        shape = getattr(c, "havoc_shapes", {}).get(path, shape)
-        h = ctx.heap[ref.addr]
-        if shape is not None:
-            h.fields[attr] = self.make_sym(ctx, shape, fresh_name(path))
+        parts = path.split(".")
+        obj = sfr.locals[parts[0]]
+        shape = c.self_shape if parts[0] == "self" else c.shapes.get(parts[0])
+        override = getattr(c, "havoc_shapes", {}).get(path)
+        if len(parts) == 1:
+            self.havoc_object(ctx, obj, override or shape, path)
+            return
+        for p in parts[1:-1]:
+            h = ctx.heap[obj.addr]
+            obj = h.fields[p]
+            shape = shape.fields.get(p) if shape is not None and hasattr(shape, "fields") else None
+        attr = parts[-1]
+        h = ctx.heap[obj.addr]
+        fshape = override or (shape.fields.get(attr) if shape is not None and hasattr(shape, "fields") else None)
+        if fshape is not None:
+            h.fields[attr] = self.make_sym(ctx, fshape, fresh_name(path))
         else:
             h.fields[attr] = self.fresh_like(ctx, h.fields[attr], path)
+
+    def havoc_object(self, ctx, ref, shape, name):
+        """Havoc the contents of the object `ref` points to (identity kept)."""
+        if not isinstance(ref, VRef):
+            raise Unsupported(f"modifies {name}: not an object")
+        h = ctx.heap[ref.addr]
+        if shape is None:
+            raise Unsupported(f"modifies {name}: no shape declared")
+        fresh = self.make_sym(ctx, shape, fresh_name(name))
+        if isinstance(fresh, VRef):
+            hf = ctx.heap.pop(fresh.addr)
+            ctx.heap[ref.addr] = hf
+        else:
+            raise Unsupported(f"modifies {name}: shape is not an object shape")
 
     # ------------------------------------------------------------------ verifying one function
     def verify_function(self, c, regimes=None) -> FunctionReport:
@@ -946,6 +1011,10 @@ class Engine:
         # parameters keep their entry bindings in postconditions (python passes references;
         # rebinding a parameter name inside the body is not visible to the caller)
         post.locals.update(ctx.ghost)
+        for kk in range(4):
+            # instants never asked for are still nameable in clauses (they are unconstrained)
+            if f"now_{kk}" not in post.locals:
+                post.locals[f"now_{kk}"] = VTime(S(z3.Int(f"now_{kk}"), "int"))
         short = c.target.split(":")[-1]
         self.last_frame_locals = fr.locals
         if outcome[0] == "return":
@@ -957,8 +1026,7 @@ class Engine:
                     ctx.check(f"{short}::ensures.{nm}", False, detail=f"clause raised {e.cls}: {e.msg}")
                     continue
                 ctx.check(f"{short}::ensures.{nm}", g)
-            if c.pure:
-                self.check_pure(it, c, short, old_heap)
+            self.check_frame(it, c, short, old_heap, old_locals)
         else:
             e = outcome[1]
             cls = e.cls if isinstance(e.cls, str) else "symbolic"
@@ -1006,6 +1074,104 @@ class Engine:
         bz = zbool(body) if not isinstance(body, bool) else z3.BoolVal(body)
         pats = [z3.Select(a, k + 1) for a in leaves_of(arrays)][:1]
         ctx.assume(z3.ForAll([k], z3.Implies(rng, bz), patterns=pats))
+
+    def check_frame(self, it, c, short, old_heap, old_locals):
+        """Frame condition: only what `modifies` names (and what is reachable from it) may differ
+        from the entry state.  `modifies` is what callers havoc, so it must be an upper bound."""
+        ctx = it.ctx
+        if getattr(c, "frame", "checked") == "unchecked":
+            return
+        allowed_fields = set()     # (addr, field)
+        allowed_objs = set()       # addresses of objects that may change entirely
+
+        def reach(v):
+            if isinstance(v, VRef) and v.addr not in allowed_objs:
+                allowed_objs.add(v.addr)
+                h = old_heap.get(v.addr)
+                if isinstance(h, HObj):
+                    for x in h.fields.values():
+                        reach(x)
+                elif isinstance(h, HList):
+                    for x in h.items:
+                        reach(x)
+                elif isinstance(h, HDict):
+                    for x in h.items.values():
+                        reach(x)
+                elif isinstance(h, HOptDict):
+                    for e in h.entries.values():
+                        reach(e[1])
+            elif isinstance(v, tuple):
+                for x in v:
+                    reach(x)
+        for path in c.modifies:
+            parts = path.split(".")
+            cur = old_locals.get(parts[0])
+            ok = True
+            for p in parts[1:-1]:
+                if isinstance(cur, VRef) and isinstance(old_heap.get(cur.addr), HObj):
+                    cur = old_heap[cur.addr].fields.get(p)
+                else:
+                    ok = False
+                    break
+            if not ok or not isinstance(cur, VRef):
+                continue
+            if len(parts) == 1:
+                reach(cur)
+                continue
+            allowed_fields.add((cur.addr, parts[-1]))
+            h = old_heap.get(cur.addr)
+            if isinstance(h, HObj):
+                reach(h.fields.get(parts[-1]))
+        changed = []
+        for addr, h0 in old_heap.items():
+            if addr in allowed_objs:
+                continue
+            h1 = ctx.heap.get(addr)
+            if h1 is None:
+                continue   # scratch object allocated while evaluating an old() expression
+            if isinstance(h0, HObj):
+                for k, v in h0.fields.items():
+                    if (addr, k) in allowed_fields or k.startswith("__"):
+                        continue
+                    v1 = h1.fields.get(k)
+                    if v1 is not v and not self.same_value(it, v, v1):
+                        changed.append(f"{h0.cls.split(':')[-1]}.{k}")
+            elif isinstance(h0, HList):
+                if len(h0.items) != len(h1.items) or any(a is not b for a, b in zip(h0.items, h1.items)):
+                    changed.append("list")
+            elif isinstance(h0, (HDict, HSet)):
+                if list(h0.items) != list(h1.items) or (isinstance(h0, HDict) and any(
+                        h0.items[k] is not h1.items[k] for k in h0.items)):
+                    changed.append("dict/set")
+            elif isinstance(h0, HKeySet):
+                if h0.val is not h1.val:
+                    changed.append("set of records")
+            elif isinstance(h0, HSymList):
+                if h0.seq is not h1.seq:
+                    changed.append("list")
+            elif isinstance(h0, HSymSet):
+                if h0.val is not h1.val:
+                    changed.append("set")
+            elif isinstance(h0, HOptDict):
+                if set(h0.entries) != set(h1.entries) or any(
+                        h0.entries[k][0] is not h1.entries[k][0] or h0.entries[k][1] is not h1.entries[k][1]
+                        for k in h0.entries):
+                    changed.append("dict")
+        if changed:
+            ctx.check(f"{short}::frame.only_modifies_declared", False, kind="frame",
+                      detail="modified outside `modifies`: " + ", ".join(sorted(set(changed))))
+        else:
+            ctx.check(f"{short}::frame.only_modifies_declared", True, kind="frame")
+
+    def same_value(self, it, a, b):
+        """Provably equal values (a re-assignment of an equal value is not a modification)."""
+        try:
+            t = it.truth(it.equal(a, b))
+        except Exception:  # pylint: disable=broad-except
+            return False
+        if isinstance(t, bool):
+            return t
+        return not it.ctx.feasible(z3.Not(t))
 
     def check_pure(self, it, c, short, old_heap):
         """Frame condition of a pure function: no pre-existing heap object was modified."""
